@@ -34,6 +34,9 @@ def rules(chk, db):
 def run(chk, db):
     facts.gate(chk, db, ['nop/base/table.h', 'nop/table.h', 'nop/utility/bounded_reader.h', 'nop/utility/bounded_writer.h'])
     rules(chk, db)
+    # a deleted entry carries no state: anything it remembered between two decodes would make skipping depend on history
+    from . import c13
+    c13.entries(chk, db, 'EN')
     witness.run(chk, 'c07_tables.cpp', 'UID', 'compile-time witnesses: duplicate entry ids rejected, evolved definitions accepted', minimum=4)
     chk.explanation = (
         'All members of Encoding<Table> are summarised symbolically for each probe table definition (added, deleted, reordered and nested '
